@@ -6,6 +6,8 @@ package restful
 
 import (
 	"compress/zlib"
+	"io"
+	"io/ioutil"
 	"net/http"
 )
 
@@ -77,17 +79,20 @@ func (r *Request) ReadEntity(entityPointer interface{}) (err error) {
 	contentEncoding := r.Request.Header.Get(HEADER_ContentEncoding)
 
 	// check if the request body needs decompression
+	compressed := false
 	if ENCODING_GZIP == contentEncoding {
 		gzipReader := currentCompressorProvider.AcquireGzipReader()
 		defer currentCompressorProvider.ReleaseGzipReader(gzipReader)
 		gzipReader.Reset(r.Request.Body)
 		r.Request.Body = gzipReader
+		compressed = true
 	} else if ENCODING_DEFLATE == contentEncoding {
 		zlibReader, err := zlib.NewReader(r.Request.Body)
 		if err != nil {
 			return err
 		}
 		r.Request.Body = zlibReader
+		compressed = true
 	}
 
 	// lookup the EntityReader, use defaultRequestContentType if needed and provided
@@ -100,7 +105,17 @@ func (r *Request) ReadEntity(entityPointer interface{}) (err error) {
 			return NewError(http.StatusBadRequest, "Unable to unmarshal content of type:"+contentType)
 		}
 	}
-	return entityReader.Read(r, entityPointer)
+	if err := entityReader.Read(r, entityPointer); err != nil {
+		return err
+	}
+	if compressed {
+		// the checksum and length of a compressed stream are verified at its end only ; the entity reader
+		// stops after one document, so read on to find out whether the stream was cut or corrupted
+		if _, err := io.Copy(ioutil.Discard, r.Request.Body); err != nil {
+			return err
+		}
+	}
+	return nil
 }
 
 // SetAttribute adds or replaces the attribute with the given value.
